@@ -44,13 +44,13 @@ def run(ctx, col, tier):
     col.not_decided += ["correctness of has_cyclic / is_sorted / is_single_root as statements over all tables",
                         "DSU semantics over union/find histories"]
 
-    api(ctx, col, tier)
-    sentinels(ctx, col)
-    rank(ctx, col)
-    bif(ctx, col)
-    dispatch(ctx, col)
-    checkers(ctx, col)
-    cg_rule(ctx, col)
+    col.guard(api, ctx, col, tier)
+    col.guard(sentinels, ctx, col)
+    col.guard(rank, ctx, col)
+    col.guard(bif, ctx, col)
+    col.guard(dispatch, ctx, col)
+    col.guard(checkers, ctx, col)
+    col.guard(cg_rule, ctx, col)
     from ..rules import rootcmp
     rootcmp.check(ctx, col, "R-ROOTCMP", ("swcgeom.core.swc_utils.io", "swcgeom.core.swc_utils.normalizer",
                                            "swcgeom.core.swc_utils.base", "swcgeom.core.swc_utils.checker"))
